@@ -123,3 +123,31 @@ Definition py_BYTES_TO_BITS : list string := NV.Gen.codec_gen.gen_bytes_to_bits.
 From NV Require Model.IpText.
 Definition py_split_dc (s : string) : list string := map str_of (IpText.split_dc_chars (chars s) []).
 Definition py_contains_dc (s : string) : bool := IpText.contains_dc_chars (chars s).
+
+(* ---- the socket functions that netaddr/strategy/ipv4.py and ipv6.py bind at import time: `socket.inet_aton / inet_pton /
+   inet_ntop` on the platform path, `netaddr.fbsocket.inet_pton / inet_ntop` on the fallback path.  Which path is taken is the
+   parameter `be` of the model (Model/AddrText.v backend).  Platform = the named oracles Std4 / Std6 of Model/IpText.v (a failure
+   of the platform function is OSError / ValueError, rendered as ValueError as in AddrText.v); Fallback = the hand model of
+   Model/FbSocket.v (whose source tie is C01_source_tie).  inet_aton is the platform function on both paths.
+   A packed IPv4 address is the list of its 4 bytes in both; the models write a packed IPv6 address as 8 big-endian 16-bit
+   words, the code sees its 16 bytes: py_bytes_of_words / py_words_of_bytes convert. *)
+From NV Require Model.AddrText.
+Definition py_backend : Type := AddrText.backend.
+Definition py_word_bytes (w : Z) : list Z := [w / 256; w mod 256].
+Definition py_bytes_of_words (ws : list Z) : list Z := flat_map py_word_bytes ws.
+Fixpoint py_words_of_bytes (p : list Z) : list Z :=
+  match p with a :: b :: r => (a * 256 + b) :: py_words_of_bytes r | _ => [] end.
+(* socket.inet_aton(s): the 4 bytes of the 32-bit value (Std4.octets_of) *)
+Definition py_inet_aton (s : string) : outcome (list Z) :=
+  omap IpText.Std4.octets_of (AddrText.of_option (IpText.Std4.aton s)).
+Definition py_inet_pton4 (be : py_backend) (s : string) : outcome (list Z) := AddrText.inet_pton4 be s.
+Definition py_inet_pton6 (be : py_backend) (s : string) : outcome (list Z) := omap py_bytes_of_words (AddrText.inet_pton6 be s).
+(* inet_ntop(AF_INET6, p): both implementations refuse a byte string that is not 16 bytes long (ValueError) *)
+Definition py_inet_ntop6 (be : py_backend) (p : list Z) : outcome string :=
+  if Nat.eqb (List.length p) 16 then AddrText.inet_ntop6 be (py_words_of_bytes p) else Raise ValueError.
+
+(* fmt % n for a format held in a variable: the two formats of the IPv6 dialect classes; any other text is outside the model *)
+Definition py_format1 (fmt : string) (n : Z) : outcome string :=
+  if String.eqb fmt "%x"%string then Ok (fmt_x n)
+  else if String.eqb fmt "%.4x"%string then Ok (py_fmt_x4 n)
+  else Raise Unsupported.
